@@ -138,7 +138,7 @@ func (q *queueCtx) config() paths.Config {
 					}
 					defer func() { out = append(out, paths.Event{Kind: "RETVAL", Arg: arg, Pos: v.Pos()}) }()
 				case *ast.CallExpr:
-					sel, ok := v.Fun.(*ast.SelectorExpr)
+					sel, ok := ast.Unparen(v.Fun).(*ast.SelectorExpr)
 					if !ok {
 						return true
 					}
